@@ -122,8 +122,43 @@ def check_refit(kind, seed=0):
     return f
 
 
+def check_one_reference_row(kind, negB, seed=0):
+    """Exactly one row measured entirely in the reference basis: every negative batch still consists of negB rows
+    of num_sites entries, each equal to that row."""
+    rng = np.random.default_rng(seed)
+    st = C.make_state(kind, 3, 2, 1)
+    bases = np.array([list("XZZ"), list("ZZZ"), list("ZYZ"), list("YZX"), list("ZZX")])
+    data = torch.tensor(rng.integers(0, 2, size=(5, 3)), dtype=torch.double)
+    seen = []
+    real = st._shuffle_data
+
+    def spy(*a, real=real):
+        out = list(real(*a))
+        seen.extend(p[1].clone() for p in out)
+        return iter(out)
+    st._shuffle_data = spy
+    try:
+        st.fit(data, epochs=1, pos_batch_size=2, neg_batch_size=negB, k=1, lr=0.01, input_bases=bases)
+    except Exception as e:
+        return ["fit raised %r on a legal data set with exactly one reference-basis row (neg_batch_size=%d)" % (e, negB)]
+    finally:
+        st.__dict__.pop("_shuffle_data", None)
+    f = []
+    for nb in seen:
+        if tuple(nb.shape) != (negB, 3) or any(r != data[1].tolist() for r in nb.tolist()):
+            f.append("negative batch of shape %s is not %d copies of the single reference-basis row" % (tuple(nb.shape), negB))
+            break
+    return f
+
+
 def native_check(quick=True):
     fails, n = [], 0
+    for kind in ("complex", "mixed"):
+        for negB in (3, 2):
+            f = check_one_reference_row(kind, negB)
+            n += 1
+            if f:
+                fails.append(({"kind": kind, "one reference-basis row": True, "neg_batch_size": negB}, f[:2]))
     grid = [(5, 2, 2), (5, 2, 3), (4, 4, 4), (3, 5, 2), (6, 3, 1), (1, 1, 1)] if quick else \
         [(N, B, NB) for N in range(1, 10) for B in range(1, 11) for NB in (1, 2, B, 7)]
     for (N, B, NB) in grid:
